@@ -27,7 +27,7 @@ def run_schedule(progs, order):
         t = parser.feed(e)
         if t is not None:
             tid = t.ktraces[0].tid
-            per_tid.setdefault(tid, []).append((str(t), [ident[id(o)] for o in t.ktraces]))
+            per_tid.setdefault(tid, []).append((str(t), [ident.get(id(o), ('foreign-event', o.tid, o.timestamp)) for o in t.ktraces]))
     tables = {'pids_names': dict(parser.pids_names), 'threads_pids': dict(parser.threads_pids),
               'tids_names': dict(parser.tids_names), 'global_strings': dict(parser.global_strings)}
     return per_tid, tables
